@@ -247,7 +247,10 @@ impl RaAdvService {
             options.add_option(icmppkt::NDOptionValue::RecursiveDnsServers((
                 intf.rdnss_lifetime
                     .always_unwrap_or(3 * DEFAULT_MAX_RTR_ADV_INTERVAL),
-                v.clone(),
+                /* $self6 can also be used in the per interface list of addresses */
+                v.iter()
+                    .map(|ip6| if ip6.is_unspecified() { self6 } else { *ip6 })
+                    .collect(),
             )))
         }
 
